@@ -161,6 +161,45 @@ theorem table_cannot_be_shadowed (x : Nat) (w : SVal) (k : Nat) (rv : Option SVa
     (stmtI (k + 1) (.declT x) rv st).outcome = .err .redeclaredTable ∧ (stmtI (k + 1) (.declT x) rv st).st = st := by
   simp [stmtI, h, PRes.fail, PRes.outcome]
 
+/-- cursors: the innermost declaration of the name decides, whatever its state.  A cursor declared in the current
+    block and closed (never opened, or closed again) makes FETCH fail with "cursor is closed" and changes nothing —
+    an open outer cursor of the same name is neither read nor advanced -/
+theorem innermost_cursor_decides (c x : Nat) (s : Int) (hs : s < 0) (b : Block) (rest : List Block)
+    (hc : aget c b.vars = some (.int s)) :
+    cursorDo .fetch c x (b :: rest) = (some .cursorClosed, b :: rest) := by
+  simp [cursorDo, getVar, hc, curStep, hs]
+
+/-- … and every cursor operation on a name the current block declares leaves the cursor variables of all outer
+    blocks as they were: only the current block's `c` and the target of the fetch can change -/
+theorem cursor_op_touches_innermost_only (op : CurOp) (c x : Nat) (v : SVal) (b : Block) (rest : List Block)
+    (hc : aget c b.vars = some v) (hx : x ≠ c) :
+    getVar c (cursorDo op c x (b :: rest)).2.tail = getVar c rest := by
+  unfold cursorDo
+  simp only [getVar, hc]
+  cases curStep op v with
+  | error e => rfl
+  | ok r =>
+    obtain ⟨s', ov⟩ := r
+    have h1 : setVar c s' (b :: rest) = some ({ b with vars := aset c s' b.vars } :: rest) :=
+      setVar_current s' rest (by simp [hc])
+    simp only [h1]
+    cases ov with
+    | none => rfl
+    | some w =>
+      simp only []
+      cases h2 : setVar x w ({ b with vars := aset c s' b.vars } :: rest) with
+      | none => rfl
+      | some bs2 =>
+        simp only []
+        simp only [setVar] at h2
+        split at h2
+        · cases h2; rfl
+        · split at h2
+          · rename_i r' hr'
+            cases h2
+            exact getVar_setVar_other (Ne.symm hx) hr'
+          · cases h2
+
 /-- any statement: only the CURRENT block can gain names; all enclosing blocks keep or lose theirs -/
 theorem decl_only_in_current_block (fuel : Nat) (s : Stmt) (rv : Option SVal) (st : St) :
     StackLE (stmtI fuel s rv st).st.blocks.tail st.blocks.tail := by
@@ -475,6 +514,19 @@ example : execImpl 200 [
         .ret (.var 100)],
       .print (.call 0 []), .print (.var 100)]
     = ⟨[.null, .int 3], .err .undeclaredVar, [[]]⟩ := by decide
+
+/-- cursor 200 over the rows 0,1,2 open in the outer block and one row fetched; an inner block declares its own
+    cursor 200 (rows 10,11,12), fetches from it while it is still closed: "cursor is closed", the outer one untouched -/
+example : execImpl 100 [.decl 0 (i 9), .decl 200 (i (-1)), .cursor .open 200 0, .cursor .fetch 200 0, .print (.var 0),
+      .ifs [(tt, [.decl 200 (i (-11)), .cursor .fetch 200 0, .print (.var 0)])] []]
+    = ⟨[.int 0], .err .cursorClosed, [[(200, .int 1), (0, .int 0)]]⟩ := by decide
+
+/-- the inner cursor opened, two rows fetched, closed; after the block the outer cursor continues where it was -/
+example : (execImpl 100 [.decl 0 (i 9), .decl 200 (i (-1)), .cursor .open 200 0, .cursor .fetch 200 0,
+      .ifs [(tt, [.decl 200 (i (-11)), .cursor .open 200 0, .cursor .fetch 200 0, .cursor .fetch 200 0, .print (.var 0),
+        .cursor .close 200 0])] [],
+      .cursor .fetch 200 0, .print (.var 0), .cursor .fetch 200 0, .cursor .fetch 200 0, .cursor .fetch 200 0, .print (.var 0)]).out
+    = [.int 11, .int 1, .int 2] := by decide
 
 /-- a function declared in a block is gone after it -/
 example : (execImpl 100 [.ifs [(tt, [.declFn 0 [] [.ret (i 1)], .print (.call 0 [])])] [], .print (.call 0 [])])
